@@ -14,7 +14,7 @@ C11 — what the derived-identity lists have to be, read off the schema (RFC 795
   (identity name, module name) — hence each once and in an order fixed by the schema.
 
 The only algorithm in here is `closure` (breadth-first rounds until nothing new turns up); its
-meaning is proved in `Goyang.Props.C11.closure_sound/complete`.  Everything else is a list
+meaning is proved in `Goyang.Props.C11.closure_is_reachability`.  Everything else is a list
 comprehension.  Nothing of `Goyang.Model.Identity` is used; the registry functions
 (`findModule`, `owner`, `byId`) are the shared reading of import/include/belongs-to statements.
 -/
